@@ -127,6 +127,16 @@ struct Rec {            // what a lookup returned (copied out of the registry)
   bool complete = false;
 };
 
+// keys are printed in a form that is always plain ASCII without separators (a broken table may hand out garbage)
+static std::string san(const std::string& k) {
+  std::string out;
+  for (unsigned char ch : k) {
+    if (std::isalnum(ch) || ch == '+' || ch == '.' || ch == '-' || ch == '_') out.push_back((char)ch);
+    else { char b[8]; std::snprintf(b, sizeof(b), "%%%02X", ch); out += b; }
+  }
+  return out.size() > 64 ? out.substr(0, 64) + "..." : out;
+}
+
 static int dummy_open(mjResource*) { return 0; }
 static int dummy_read(mjResource*, const void**) { return -1; }
 static void dummy_close(mjResource*) {}
@@ -165,7 +175,7 @@ struct Api {
     r.found = true;
     r.slot = slot;
     size_t len = strnlen(o->key, sizeof(o->key));
-    r.key.assign(o->key, len);
+    r.key = san(std::string(o->key, len));
     r.payload = o->payload;
     r.complete = len < sizeof(o->key) && o->check == checksum(o->key, len, o->payload) &&
                  o->fill == o->payload * 7 + 1;
@@ -177,9 +187,10 @@ struct Api {
     r.found = true;
     r.slot = slot;
     if (!p->name) return r;  // incomplete
-    r.key = p->name;
+    std::string raw(p->name, strnlen(p->name, 64));
+    r.key = san(raw);
     r.payload = p->capabilityflags;
-    r.complete = (unsigned)p->needstage == checksum(r.key.data(), r.key.size(), r.payload) &&
+    r.complete = (unsigned)p->needstage == checksum(raw.data(), raw.size(), r.payload) &&
                  p->nattribute == 1 && p->attributes && p->attributes[0] &&
                  !std::strcmp(p->attributes[0], "attr");
     return r;
@@ -190,10 +201,11 @@ struct Api {
     r.found = true;
     r.slot = slot;
     if (!p->prefix) return r;
-    r.key = p->prefix;
+    std::string raw(p->prefix, strnlen(p->prefix, 64));
+    r.key = san(raw);
     r.payload = (int)(intptr_t)p->data;
     r.complete = p->open == dummy_open && p->read == dummy_read && p->close == dummy_close &&
-                 (intptr_t)p->mount == (intptr_t)checksum(r.key.data(), r.key.size(), r.payload);
+                 (intptr_t)p->mount == (intptr_t)checksum(raw.data(), raw.size(), r.payload);
     return r;
   }
 
